@@ -682,7 +682,7 @@ def _exotic_case(rng, flavour):
     prev = []
     if flavour == "long":
         n = rng.choice([2, 3])
-        length = rng.choice([64, 65, 65, 66, 100, 127, 128, 129, 129, 130, 140])
+        length = rng.choice([64, 65, 65, 66, 100, 127, 128, 129, 129, 130, 140, 255, 256, 257, 511, 512, 513, 1023, 1024, 1025])
         pool = [_typed_u3(rng, n, fam, prev, kmax=1) for _ in range(5)] + [_typed_other(rng, n, big=False) for _ in range(4)]
         c["ops"] = [dict(rng.choice(pool)) for _ in range(length)]
         c["rules"] = rng.choice([1, 1, 2])
@@ -853,7 +853,7 @@ def generate(rng, tier):
         ops = [rng.randrange(-2, 12) for _ in range(rng.randrange(0, 6))]
         cases.append(_chain_case(rng, ops, rng.choice([0, 1, 2, 2, 3, 4])))
     for i in range(40 if big else 8):     # 60-140 operations (block-wise implementations), few rules
-        length = rng.choice([60, 64, 65, 65, 66, 100, 128, 129, 129, 130, 140])
+        length = rng.choice([60, 64, 65, 65, 66, 100, 128, 129, 129, 130, 140, 256, 257, 512, 513, 1024, 1025])
         cases.append(_chain_case(rng, [rng.randrange(-2, 12) for _ in range(length)], rng.choice([1, 2, 2, 3]), raising=False))
     for i in range(200 if big else 44):
         cases.append(_exotic_case(rng, rng.choice(["numeric", "numeric", "symbolic"])))
